@@ -10,6 +10,7 @@ CONSTANTS
   Trim = TRUE
   TrOnly = FALSE
   AxisBy = "dims"
+  LookupBy = "search"
   StepPrec = "step"
   QueryCast = "none"
 INVARIANT ImplStep
